@@ -36,7 +36,8 @@ extern "C" void h_region_history(void) {
       case KClosure: { auto* x = lx.make_closure(*p.r); m.ir = &x->body; m.r = &static_cast<const ipr::Closure&>(*x).region(); m.owner = x; break; }
       case KBlock: { auto* x = lx.make_block(*p.r); m.ir = &x->lexical_region; m.r = &static_cast<const ipr::Block&>(*x).region(); m.owner = x; m.blk = x; break; }
       case KHandler: {
-         auto* b = lx.make_block(*p.r); auto* h = b->new_handler(nm, lx.int_type()); const ipr::Handler& ch = *h;
+         const ipr::Type& caught = vp_pick(3) == 0 ? static_cast<const ipr::Type&>(lx.ellipsis_type()) : vp_flag() ? static_cast<const ipr::Type&>(lx.int_type()) : lx.get_reference(lx.get_qualified(lx.const_qualifier(), lx.int_type()));      // catch (...), by value, by reference
+         auto* b = lx.make_block(*p.r); auto* h = b->new_handler(nm, caught); const ipr::Handler& ch = *h;
          const ipr::Region& body = ch.body().region(); const ipr::Region& eh = body.enclosing();
          // body enclosed by a region binding exactly the exception parameter, itself enclosed by the region enclosing the guarded block
          vp_assert(&eh.enclosing() == &static_cast<const ipr::Block&>(*b).region().enclosing() && &eh.enclosing() == p.r, 2);
